@@ -15,7 +15,8 @@
 //! (undefined global, some on the last line of the file, some after non-ASCII text), every 3rd a warning), plus
 //! warnings-only (N = 1, 33), hints-only (N = 5) and clean (N = 5) workspaces, each with a library directory configured in
 //! .emmyrc.json (a sibling directory; for N = 5 nested inside the main directory) whose files contain errors;
-//! x severity {none, error, warn, hint} x warnings-as-errors {no, yes} x format {json, sarif, text}.
+//! x severity {none, error, warn} (N = 33 also hint) x warnings-as-errors {no, yes} x format {json, sarif, text}
+//! (the auxiliary 33-file, hints-only and clean workspaces with the subsets that matter for them): 174 runs.
 //! Every run is a child process (`replay one ...`, the text report goes to stdout), 6 at a time.
 //!   replay search [seed]     prints "FOUND <oracle> ..." (smallest workspace first, one line per oracle and format) and exits 1;
 //!                            exit 0 otherwise; exit 2 when a workspace cannot be set up.  The seed rotates which files carry what.
@@ -255,8 +256,12 @@ fn search(seed: usize) -> i32 {
     let mut jobs = VecDeque::new();
     for (w, ws) in wss.iter().enumerate() {
         for fmt in FORMATS { for (sev, max_sev) in SEVS { for wae in [false, true] {
-            // the small auxiliary workspaces skip the redundant "hint" filter
-            if !ws.name.starts_with("mixed") && *sev == "hint" { continue; }
+            // the "hint" filter (same set as no filter) only on the 33-file workspace; the large warnings-only workspace only
+            // under the filter that removes all of its warnings
+            if ws.name != "mixed_33" && *sev == "hint" { continue; }
+            if ws.name == "warnonly_33" && *sev != "error" { continue; }
+            // hints-only and clean workspaces: nothing can fail the check; unfiltered, and filtered with the flag
+            if (ws.name == "hintonly_5" || ws.name == "clean_5") && !(*sev == "none" || (*sev == "warn" && wae)) { continue; }
             jobs.push_back(Job { ws: w, fmt, sev, max_sev: *max_sev, wae });
         } } }
     }
